@@ -35,10 +35,10 @@ CYCLES = ("pipe-open-close pipe-roundtrip pipe-drop unix-socket spawn-wait spawn
           "read-timeout deadline-no-fire deadline-fire go-error-supervisor spawn-finish file-open-close file-drop "
           "parser-peg sleep lock spawn-err-pipe spawn-all-pipes thread-call-cancelled thread-call-deadline "
           "proc-wait-cancelled read-cancelled write-cancelled sleep-cancelled connect-refused connect-accept-tcp "
-          "spawn-drop-running deadline-body-raises").split()
+          "spawn-drop-running deadline-body-raises tchan-streams-drop lock-drop").split()
 FIELDS = ["fds", "children", "threads", "root-count", "block-count", "tq-count", "listener-count", "fds-before-gc"]
 # cycles that deliberately drop an open handle and leave closing it to the collector
-GC_CLOSES = {"pipe-drop", "file-drop", "spawn-drop", "spawn-drop-running"}
+GC_CLOSES = {"pipe-drop", "file-drop", "spawn-drop", "spawn-drop-running", "tchan-streams-drop"}
 
 # ------------------------------------------------------------------ termination programs
 
@@ -139,6 +139,23 @@ def special_program(kind):
 (print "main returns " total)
 """
         return src, sorted(["reader done", "writer done", "main returns 3000000"])
+    if kind == "tchan-writers-cancel":
+        # three fibers blocked in ev/give on a full thread channel; the first one is cancelled; every value that was
+        # given must still be taken and the two remaining givers must finish, so that the loop can return
+        src = """(def tc (ev/thread-chan 1))
+(ev/give tc :first)
+(defn giver [name naps] (ev/go (fn [] (repeat naps (ev/sleep 0.001)) (try (do (ev/give tc name) (print "gave " name)) ([e] (print "cancelled " name))))))
+(def a (giver :a 0)) (giver :b 2) (giver :c 3)
+(ev/sleep 0.05)
+(ev/cancel a :stop)
+(ev/sleep 0.01)
+(def got @[])
+(repeat 3 (ev/sleep 0.01) (array/push got (ev/take tc)))
+(ev/sleep 0.05)
+(repeat (ev/count tc) (array/push got (ev/take tc)))
+(print "main returns " (length got))
+"""
+        return src, sorted(["cancelled a", "gave b", "gave c", "main returns 4"])
     raise ValueError(kind)
 
 
@@ -170,6 +187,7 @@ def term_programs(quick):
                 for link in ("none", "chan", "cancel"):
                     progs.append(([a, b, c], link, False))
     progs.append((["duplex-gc"], "special", False))
+    progs.append((["tchan-writers-cancel"], "special", False))
     for n in (2, 8, 9, 16, 24, 40, 64):
         for kind in ("thread", "proc"):
             progs.append(([str(n)], "burst", kind))
